@@ -1558,6 +1558,9 @@ func (s *Server) sendLWT(cl *Client) {
 	}
 
 	modifiedLWT := s.hooks.OnWill(cl, cl.Properties.Will)
+	if !IsValidFilter(modifiedLWT.TopicName, true) || !s.hooks.OnACLCheck(cl, modifiedLWT.TopicName, true) {
+		return // a will is subject to the same topic and write-permission checks as any other publish by the client
+	}
 
 	pk := packets.Packet{
 		FixedHeader: packets.FixedHeader{
